@@ -15,6 +15,7 @@ go/cmd/c10 sample.  See docs/notes/C10.md.
 import KafkaVerif.Lemmas.Lockset
 import KafkaVerif.Gen.Accesses
 import KafkaVerif.Lemmas.LockProg
+import KafkaVerif.Lemmas.LockCompose
 import KafkaVerif.Gen.Skeletons
 import KafkaVerif.Gen.LockFacts
 
@@ -227,14 +228,85 @@ theorem repo_table_justified :
     row `a` of site `k` that is not in the listed sets: the real locks recorded in row `a` are held (`⊆ hk`).
     This is the `Respects` hypothesis of `repo_no_race`, proved for the skeleton semantics instead of assumed. -/
 theorem repo_locks_held {g : Nat} {body : Cmd} (hb : envOf Gen.skeletons g = some body)
-    {h h' : LS} {obs : List (Nat × LS)} {t : Out}
+    {h h' : LS} {obs : List LEv} {t : Out}
     (hs : Sub (getLS Gen.skEntryR g) h) (hrun : Run (envOf Gen.skeletons) body h obs h' t)
     {a : Access} (ha : a ∈ Gen.accesses) (hnu : Gen.unjustifiedOcc.contains a.site = false)
-    (hne : Gen.exemptOcc.contains a.site = false) {hk : LS} (hobs : (a.site, hk) ∈ obs) :
+    (hne : Gen.exemptOcc.contains a.site = false) {hk : LS} (hobs : LEv.acc a.site hk ∈ obs) :
     Sub (realLocks Gen.tokenIds a) hk := by
   obtain ⟨L, hrow, hsub⟩ := prog_sound repo_skeleton_rel_ok repo_skeleton_entry_ok hb hs hrun a.site hk hobs
   have hj := (List.all_eq_true.1 repo_table_justified) a ha
   rw [hnu, hne] at hj
   exact justT_held repo_rows_indexed (by simpa using hj) hrow hsub
+
+/-! ## 5. From goroutines that follow the skeletons to `Respects`, and to race freedom
+
+`Respects Gen.accesses tr` was the assumption of `repo_no_race`.  Its clause "the recorded locks are held" is now a
+theorem for every well-formed global execution whose goroutines follow skeletons (`Conforms`): simulation of the
+global lock state by the per-goroutine runs (`Lemmas/LockCompose.lean: sim`) + `repo_locks_held`.  What stays
+assumed is stated as hypotheses: every access event is a table row (completeness of the table, R1), the tokens
+(ordering protocols) are respected, and the annotated assumptions `asm` (func_holds, call_acquires) hold where the
+execution marks them (`AsmOk`). -/
+
+/-- goroutine `t` of `tr` follows a skeleton: its events (Lock = an exclusive + a shared hold, Unlock/RUnlock = release,
+    access = site of the row) are a prefix of the events of a run of a function body entered with no lock held -/
+def Conforms (tr : List Ev) (t : Tid) : Prop :=
+  ∃ g body evs h' o, envOf Gen.skeletons g = some body ∧ getLS Gen.skEntryR g = [] ∧
+    Run (envOf Gen.skeletons) body [] evs h' o ∧ projT t tr <+: evs.map shapeOf
+
+/-- non-vacuity of the skeleton semantics and of the simulation hypotheses: `mu.Lock(); x.f++; mu.Unlock()` -/
+def exBody : Cmd := .seq (.acq ⟨7, .excl⟩) (.seq (.acq ⟨7, .shared⟩) (.seq (.acc 0) (.rel 7)))
+
+example : Run (envOf [(0, exBody)]) exBody []
+    [.acq ⟨7, .excl⟩, .acq ⟨7, .shared⟩, .acc 0 [⟨7, .shared⟩, ⟨7, .excl⟩], .rel 7] (dropM 7 [⟨7, .shared⟩, ⟨7, .excl⟩]) .normal :=
+  Run.seqN Run.acq (Run.seqN Run.acq (Run.seqN Run.acc Run.rel))
+
+/-- the global execution `Lock; access; Unlock` of goroutine 1 projects onto exactly those events -/
+example : projT 1 [.acq 1 7 .excl, .acc 1 exW, .rel 1 7 .excl] =
+    ([.acq ⟨7, .excl⟩, .acq ⟨7, .shared⟩, .acc 0 [⟨7, .shared⟩, ⟨7, .excl⟩], .rel 7] : List LEv).map shapeOf := by decide
+
+theorem repo_lists_empty : Gen.unjustifiedOcc = [] ∧ Gen.exemptOcc = [] := by decide
+
+/-- the real locks of a table row are held — in the global lock state — whenever a conforming goroutine performs it -/
+theorem repo_real_locks_held {tr : List Ev} (hwf : WF tr) {t : Tid} (hconf : Conforms tr t)
+    (hasm : AsmOk t LState.init tr) {i : Nat} {a : Access} (hi : tr[i]? = some (Ev.acc t a)) (ha : a ∈ Gen.accesses) :
+    ∀ x, x ∈ realLocks Gen.tokenIds a → HoldsAtLeast tr i t x := by
+  obtain ⟨g, body, evs, h', o, hb, he, hrun, hpre⟩ := hconf
+  obtain ⟨send, hsend⟩ := hwf
+  have hcons : consistent [] evs := by
+    have := run_consistent hrun [] trivial
+    simpa using this
+  obtain ⟨sj, hk, hr, hmem, hheld⟩ :=
+    sim t hsend (fun x hx => absurd hx List.not_mem_nil) hcons hpre hasm i a hi
+  have hsub : Sub (realLocks Gen.tokenIds a) hk :=
+    repo_locks_held hb (by rw [he]; exact sub_nil _) hrun ha
+      (by rw [repo_lists_empty.1]; rfl) (by rw [repo_lists_empty.2]; rfl) hmem
+  intro x hx
+  rcases hheld x (hsub x hx) with h1 | ⟨hm, h2⟩
+  · exact Or.inl ⟨sj, hr, h1⟩
+  · exact Or.inr ⟨hm, sj, hr, h2⟩
+
+/-- **repo_respects_of_conformance** -/
+theorem repo_respects_of_conformance {tr : List Ev} (hwf : WF tr)
+    (hconf : ∀ t, Conforms tr t) (hasm : ∀ t, AsmOk t LState.init tr)
+    (hrows : ∀ (i : Nat) t a, tr[i]? = some (Ev.acc t a) → a ∈ Gen.accesses)
+    (htok : ∀ (i : Nat) t a, tr[i]? = some (Ev.acc t a) → ∀ h, h ∈ a.locks → Gen.tokenIds.contains h.m = true → HoldsAtLeast tr i t h) :
+    Respects Gen.accesses tr := by
+  intro i t a hi
+  refine ⟨hrows i t a hi, fun h hh => ?_⟩
+  by_cases htk : Gen.tokenIds.contains h.m = true
+  · exact htok i t a hi h hh htk
+  · have hreal : h ∈ realLocks Gen.tokenIds a := by
+      unfold realLocks
+      exact List.mem_filter.2 ⟨hh, by simpa using htk⟩
+    exact repo_real_locks_held hwf (hconf t) (hasm t) hi (hrows i t a hi) h hreal
+
+/-- **repo_no_race_of_conformance** — no data race in any well-formed execution whose goroutines follow the
+    regenerated skeletons, whose accesses are table rows, and in which tokens and annotated assumptions hold. -/
+theorem repo_no_race_of_conformance {tr : List Ev} (hwf : WF tr)
+    (hconf : ∀ t, Conforms tr t) (hasm : ∀ t, AsmOk t LState.init tr)
+    (hrows : ∀ (i : Nat) t a, tr[i]? = some (Ev.acc t a) → a ∈ Gen.accesses)
+    (htok : ∀ (i : Nat) t a, tr[i]? = some (Ev.acc t a) → ∀ h, h ∈ a.locks → Gen.tokenIds.contains h.m = true → HoldsAtLeast tr i t h) :
+    ¬ Race tr :=
+  repo_no_race tr hwf (repo_respects_of_conformance hwf hconf hasm hrows htok)
 
 end KV.C10
